@@ -227,6 +227,8 @@ func c13Targets(b *bed) []c13Target {
 		{"int", b.Bulb.Accessory.ID, b.Bulb.Lightbulb.Brightness.ID},
 		{"float", b.Bulb.Accessory.ID, b.Bulb.Lightbulb.Hue.ID},
 		{"bool", b.Switch.Accessory.ID, b.Switch.Switch.On.ID},
+		{"tlv8-write-only", b.Extra.ID, b.BlobWO.ID},
+		{"tlv8-unset", b.Extra.ID, b.BlobUnset.ID},
 	}
 }
 
@@ -323,6 +325,7 @@ func c13Exec(x *c13Ctx, in c13Input) {
 	world.ResetCapture()
 	k, rs, rv, err := x.reach(in.State)
 	if err == nil && in.Dyn != "" {
+		c13CurLocal = k.Local
 		in.Body = c13DynBody(in.Dyn, rs, rv)
 	}
 	if err != nil {
@@ -414,6 +417,9 @@ func c13Exec(x *c13Ctx, in c13Input) {
 
 // c13DynBody builds messages that ARE correctly sealed under the key of the running exchange (so that they get
 // past decryption) but carry a malformed signed sub-TLV.
+// c13CurLocal is the local address ("ip:port") of the connection the current input is sent on.
+var c13CurLocal string
+
 func c13DynBody(dyn string, s *refctl.Setup, v *refctl.Verify) []byte {
 	parts := strings.SplitN(dyn, ":", 2)
 	variant := parts[1]
@@ -465,6 +471,14 @@ func c13DynBody(dyn string, s *refctl.Setup, v *refctl.Verify) []byte {
 		} else {
 			body = sub(long.ID, long.Pub, pat(64, 3))
 		}
+	case "name-device", "name-own-address":
+		// names that are keys of the accessory's own bookkeeping: "device" (the secured device in the shared context)
+		// and this connection's address (the key of its session)
+		n := "device"
+		if variant == "name-own-address" {
+			n = c13CurLocal
+		}
+		body = sub(n, nil, pat(64, 4))
 	case "name-shortkey-entity":
 		body = sub(idShortKey.ID, nil, pat(64, 4))
 	case "name-keyless-entity":
@@ -486,7 +500,7 @@ func c13DynBody(dyn string, s *refctl.Setup, v *refctl.Verify) []byte {
 	return refctl.TLVEncode(refctl.T(refctl.TagState, []byte{5}))
 }
 
-var c13DynVariants = []string{"ltpk-0", "ltpk-31", "ltpk-33", "ltpk-missing", "sig-0", "sig-63", "sig-65", "sig-missing", "id-missing", "id-300", "name-shortkey-entity", "name-keyless-entity", "empty", "garbage", "truncated", "valid-id-125", "valid-id-300"}
+var c13DynVariants = []string{"ltpk-0", "ltpk-31", "ltpk-33", "ltpk-missing", "sig-0", "sig-63", "sig-65", "sig-missing", "id-missing", "id-300", "name-shortkey-entity", "name-keyless-entity", "empty", "garbage", "truncated", "valid-id-125", "valid-id-300", "name-device", "name-own-address"}
 
 func c13Inputs(b *bed, thorough bool) []c13Input {
 	var out []c13Input
@@ -588,7 +602,7 @@ func c13Inputs(b *bed, thorough bool) []c13Input {
 				out = append(out, c13Input{State: st, Method: "POST", Path: "/resource", CType: refctl.CTJSON, Body: jb.body, Class: jb.class})
 			}
 			for _, t := range c13Targets(b)[1:] {
-				for _, v := range []string{`"NaN"`, `"Inf"`, `"-Inf"`, `"+Inf"`, `"nan"`, `"1e999"`, `1e999`, `"0x10"`, `"1_0"`, `null`, `[]`, `{}`, `"str"`, `-0`, `1e308`, `-1e308`, `5e-324`} {
+				for _, v := range []string{`"NaN"`, `"Inf"`, `"-Inf"`, `"+Inf"`, `"nan"`, `"1e999"`, `1e999`, `"0x10"`, `"1_0"`, `null`, `[]`, `{}`, `"str"`, `-0`, `1e308`, `-1e308`, `5e-324`, `7`, `[1,2]`, `[1,2]`, `true`, `{"a":[1]}`, `{"a":[1]}`} {
 					out = append(out, c13Input{State: st, Method: "PUT", Path: "/characteristics", CType: refctl.CTJSON, Body: []byte(fmt.Sprintf(`{"characteristics":[{"aid":%d,"iid":%d,"value":%s}]}`, t.aid, t.iid, v)), Class: "value-" + t.kind + ":" + v})
 				}
 			}
@@ -649,7 +663,7 @@ func init() {
 	fw.Register(&fw.Check{
 		ID:    "C13",
 		Level: "exploration",
-		Rule:  "for every protocol state reachable by a prefix of a correct exchange (fresh connection; pair-setup after M1 and after a right-code M3; pair-verify after M1; verified encrypted session) × every endpoint (/pair-setup, /pair-verify, /pairings, /characteristics GET+PUT, /accessories, /resource, /identify, unknown paths and methods) an input alphabet derived mechanically from the correct next messages: empty body, every prefix, every item removed / duplicated / re-tagged, item lengths 0,1,255,256,300, encrypted payloads of length 0..17 and with each of the 16 tag bytes flipped, key-exchange / finish messages CORRECTLY sealed under the running exchange's key but with malformed signed sub-TLVs (key and signature lengths 0/31/33/63/65, missing items, names of stored entities with a short or no key), method and state bytes 0..255, garbage; JSON bodies with wrong types per field, 1e999, -0, 2^64, nesting depth 10000 / 100000, duplicate keys, 1 MiB string, 5000 entries, invalid UTF-8; malformed id queries. Real transport over TCP. Oracle per input: no handler panic (net/http's panic log, attributed by remote address), a well-formed HTTP response (any status) instead of a dropped connection, then a correct pair-verify on the SAME connection after at most one rejected start (or, on a verified connection, a further encrypted request), and a correct handshake + read + write on a NEW connection. distinct_nontrivial = distinct (endpoint, state, status) classes Values for float and bool targets: \"NaN\", \"Inf\", \"1e999\", 1e999, \"0x10\", null, arrays, objects, ±1e308, 5e-324 (a verified observer is subscribed to the targets, so changes run the notification path); encrypted items of 1024…70000 bytes in pair-verify finish and pair-setup key-exchange messages; pair-verify start requests whose public key is 0, 1, p−1, p, p+1, 2^256−1 or a point of order 8; on a verified connection, requests cut into session frames in unusual well-formed ways (a frame without data before, inside or after the request; one frame per byte); a verified connection whose first event operation is an unsubscription; a completely valid key exchange whose identifier (125 / 300 bytes) cannot be stored.",
+		Rule:  "for every protocol state reachable by a prefix of a correct exchange (fresh connection; pair-setup after M1 and after a right-code M3; pair-verify after M1; verified encrypted session) × every endpoint (/pair-setup, /pair-verify, /pairings, /characteristics GET+PUT, /accessories, /resource, /identify, unknown paths and methods) an input alphabet derived mechanically from the correct next messages: empty body, every prefix, every item removed / duplicated / re-tagged, item lengths 0,1,255,256,300, encrypted payloads of length 0..17 and with each of the 16 tag bytes flipped, key-exchange / finish messages CORRECTLY sealed under the running exchange's key but with malformed signed sub-TLVs (key and signature lengths 0/31/33/63/65, missing items, names of stored entities with a short or no key), method and state bytes 0..255, garbage; JSON bodies with wrong types per field, 1e999, -0, 2^64, nesting depth 10000 / 100000, duplicate keys, 1 MiB string, 5000 entries, invalid UTF-8; malformed id queries. Real transport over TCP. Oracle per input: no handler panic (net/http's panic log, attributed by remote address), a well-formed HTTP response (any status) instead of a dropped connection, then a correct pair-verify on the SAME connection after at most one rejected start (or, on a verified connection, a further encrypted request), and a correct handshake + read + write on a NEW connection. distinct_nontrivial = distinct (endpoint, state, status) classes Values for float, bool and two tlv8 targets without a value (a write-only one with a typed application callback, a readable unset one; numbers, lists and objects, each twice): \"NaN\", \"Inf\", \"1e999\", 1e999, \"0x10\", null, arrays, objects, ±1e308, 5e-324 (a verified observer is subscribed to the targets, so changes run the notification path); encrypted items of 1024…70000 bytes in pair-verify finish and pair-setup key-exchange messages; pair-verify start requests whose public key is 0, 1, p−1, p, p+1, 2^256−1 or a point of order 8; on a verified connection, requests cut into session frames in unusual well-formed ways (a frame without data before, inside or after the request; one frame per byte); a verified connection whose first event operation is an unsubscription; a completely valid key exchange whose identifier (125 / 300 bytes) cannot be stored; finishes naming 'device' and the connection's own address (keys of the accessory's own bookkeeping).",
 		Run:   c13Run,
 		Replay: func(c *fw.Ctx, raw json.RawMessage) {
 			var in c13Input
